@@ -607,6 +607,12 @@ def q_where(ds, fn): return ds.Where(fn)
 def q_select(ds, fn): return ds.Select(fn)
 def q_good(ds): return ds.Where(good)
 def q_lambda_again(ds): return ds.Select(lambda e: (e.pt > PT_CUT, sq(e.pt), Cfg.THR))
+# a module-level helper reading a module global, called from a lambda written in a function that has a LOCAL of the same name
+factor = 2.0
+def scaled_g(x): return x * factor + len_g
+len_g = 100
+def build_clash(ds, factor, len_g=7): return ds.Select(lambda e: (scaled_g(e.pt) + factor, len_g))
+def build_clash_fn(factor, len_g=7): return lambda e: (scaled_g(e.pt) + factor, len_g)
 # a default that is a LOCAL function next to a default that is a plain local value hiding a module global of the same name
 kloc = 5
 def local_function_default(ds):
@@ -652,6 +658,7 @@ def def_history(ctx, rounds=8):
                             ("def reading two globals", m.q_select, m.labelled), ("closure of a factory", m.q_where, m.above(cut, name)),
                             ("closure with a default from the factory", m.q_select, m.scaled_by(k)), ("def calling a helper that reads a global", m.q_select, m.pt2),
                             ("def reading a class constant", m.q_where, m.over_thr), ("assigned lambda reading a global", m.q_where, m.keep_lambda),
+                            ("helper reading module globals named like locals of the function the lambda is written in", lambda d, f: m.build_clash(d, 10.0 + rd), m.build_clash_fn(10.0 + rd)),
                             ("lambda on one source line executed again", lambda d, f: m.q_lambda_again(d), (lambda e: (e.pt > m.PT_CUT, m.sq(e.pt), m.Cfg.THR)))]:
             ctx.case(f"def-history:{what}:{rd}", True)
             ctx.count("def-history-queries")
